@@ -509,7 +509,7 @@ func TestVerifC07(t *testing.T) {
 		"text-only inputs: multimodal inputs (SameBatch) and embedding requests are not exercised; cache-less models (InputCache.enabled == false) are not exercised",
 		"runner/llamarunner is not exercised (its cache operations are cgo calls on a *llama.Context and need a real llama.cpp model)",
 	})
-	n := cfg.N(12000, 250000)
+	n := cfg.N(12000, 200000)
 	replayIdx := -1
 	if cfg.Replay != "" {
 		var rc struct {
